@@ -66,7 +66,8 @@ def cmd_lock(args):
             print('  ', b)
         return 2
     with open(LOCK, 'w') as f:
-        json.dump({'obligations': lock_table(G), 'binders': {fid: g.binders for fid, g in sorted(G.fns.items()) if not g.spec.external}}, f, indent=1, sort_keys=True)
+        json.dump({'obligations': lock_table(G), 'binders': {fid: g.binders for fid, g in sorted(G.fns.items()) if not g.spec.external},
+                   'shapes': {fid: g.shape for fid, g in sorted(G.fns.items()) if g.shape}}, f, indent=1, sort_keys=True)
     print('locked %d contract obligations (%d call-site obligations are counted per run)' % (
         len(contract_oids(G)), len(G.obligations) - len(contract_oids(G))))
     return 0
